@@ -261,6 +261,8 @@ class SimInverter:
                 body = ("write", p["reg"], p["count"])
             else:
                 body = ("exc", code)
+        if getattr(self, "answer_addr", None) is not None:
+            addr = self.answer_addr   # a gateway/dongle that answers under its own unit id (the library does not check it)
         if fr == "rtu":
             if body[0] == "read":
                 return codec.rtu_read_response(addr, body[1])
